@@ -141,6 +141,31 @@ def gen_c10(rng, idx, tier, faults):
         # refit of the same estimator (judged against the reference on the new values)
         ops.append({"op": "MUTATE", "seed": _seed(rng)})
         ops.append({"op": "FIT", "obj": "e0", "env": ops[1]["env"], "refit": True})
+    elif rng.random() < 0.3 and (cv is None or cv["type"] != "generator"):
+        # the caller re-parameterises the fitted estimator with set_params and fits it again
+        # on the same data (coarse-to-fine grids, another criterion, another filter ...)
+        patch = {}
+        for _ in range(rng.choice([1, 1, 2])):
+            what = rng.choice(["scoring", "scoring", "alphas", "alpha_type", "regularization_method", "folds", "n_jobs"])
+            if what == "scoring":
+                patch["scoring"] = rng.choice([s_ for s_ in SCORINGS if s_ != params["scoring"]])
+            elif what == "alphas":
+                hi = 0.99 if patch.get("alpha_type", alpha_type) == "relative" else 1e3
+                patch["alphas"] = [min(hi, 10 ** rng.uniform(-10, 0)) for _ in range(rng.randint(1, 8))]
+            elif what == "alpha_type":
+                patch["alpha_type"] = "relative" if alpha_type == "absolute" else "absolute"
+                if patch["alpha_type"] == "relative":
+                    patch["alphas"] = [rng.choice([10 ** rng.uniform(-10, -0.01), rng.uniform(0, 0.99)]) for _ in range(rng.randint(1, 8))]
+            elif what == "regularization_method":
+                patch["regularization_method"] = "cutoff" if method == "tikhonov" else "tikhonov"
+            elif what == "folds" and cv is None:
+                patch["shuffle"] = not params["shuffle"]
+                patch["random_state"] = rng.randrange(1000) if patch["shuffle"] else None
+            elif what == "n_jobs":
+                patch["n_jobs"] = rng.choice([None, 1, 2, 3])
+        if patch:
+            ops.append({"op": "SET", "obj": "e0", "params": patch})
+            ops.append({"op": "FIT", "obj": "e0", "env": ops[1]["env"], "refit": True, "reparam": True})
     return {"heap": heap, "y": ydef, "ops": ops, "predict_seed": _seed(rng)}
 
 
@@ -306,6 +331,27 @@ class RidgeWorld:
                         X.setflags(write=False)
                     y[...] = y2
                     self.stats["fired"]["caller:buffer_reused"] += 1
+                elif op["op"] == "SET":
+                    # the caller re-parameterises a fitted estimator (set_params) and will fit
+                    # it again: the next fit is judged against the reference for the NEW
+                    # parameters (nothing resolved from the old ones may survive)
+                    base = news.get(op["obj"])
+                    est = getattr(self, "ests", {}).get(op["obj"])
+                    if base is None or est is None:
+                        self.count("set_params_on_missing_object_skipped")
+                        continue
+                    newp = dict(base["params"])
+                    newp.update(op["params"])
+                    if "alphas" in op["params"]:
+                        newp.pop("alphas_from_sv", None)
+                    news[op["obj"]] = dict(base, params=newp)
+                    kw = self.est_kwargs(newp, X.shape[0])
+                    try:
+                        est.set_params(**{k: kw[k] for k in op["params"] if k in kw})
+                        self.stats["fired"]["caller:reparameterised"] += 1
+                        self.log.add("SET", op["obj"], sorted(op["params"]))
+                    except Exception as e:  # noqa: BLE001
+                        self.violate("set_params_raises", f"{type(e).__name__}: {e}")
                 elif op["op"] == "FIT":
                     recorded["folds"] = None
                     self.fit(news.get(op["obj"], self.cur), op, X, y, recorded)
@@ -339,15 +385,15 @@ class RidgeWorld:
             "nontrivial": bool(self.counters.get("cv_values_compared", 0) >= 1),
         }
 
-    def fit(self, new, op, X, y, recorded):
-        from skmatter.linear_model import Ridge2FoldCV
-
-        p = dict(new["params"])
+    def est_kwargs(self, params, n):
+        """Constructor / set_params keyword arguments for the recorded parameters (argument
+        forms resolved: tuple / ndarray grids, scorer objects, numpy scalars, cv objects)."""
+        p = dict(params)
         cvspec = p.pop("cv")
-        n = X.shape[0]
         alphas = list(p["alphas"])
         af = p.pop("alphas_form", None)
         sf = p.pop("scoring_form", None)
+        p.pop("alphas_from_sv", None)
         kw = dict(p)
         kw["cv"] = self.make_cv(cvspec, n)
         if af == "tuple":
@@ -363,6 +409,23 @@ class RidgeWorld:
         for k_, v_ in list(kw.items()):
             if isinstance(v_, dict) and "$npint" in v_:
                 kw[k_] = getattr(np, v_.get("dtype", "int64"))(v_["$npint"])
+        return kw
+
+    def fit(self, new, op, X, y, recorded):
+        from skmatter.linear_model import Ridge2FoldCV
+
+        p = dict(new["params"])
+        cvspec = p.pop("cv")
+        n = X.shape[0]
+        alphas = list(p["alphas"])
+        p.pop("alphas_form", None)
+        p.pop("scoring_form", None)
+        kw = self.est_kwargs(new["params"], n)
+        if cvspec is None and not p.get("shuffle", True) and p.get("random_state") is not None:
+            # scikit-learn's KFold refuses a seed without shuffling: outside the quantifier
+            # (only reduced traces get here; the generator never emits it)
+            self.count("out_of_domain_seed_without_shuffle")
+            return
         if not hasattr(self, "ests"):
             self.ests = {}
         est = self.ests.get(new["obj"])
@@ -373,6 +436,8 @@ class RidgeWorld:
                 self.violate("constructor_raises", f"{type(e).__name__}: {e}")
                 return
             self.ests[new["obj"]] = est
+        elif op.get("reparam"):
+            self.stats["probes"]["refit_after_set_params_judged_on_new_parameters"] += 1
         else:
             self.stats["probes"]["refit_after_buffer_reuse"] += 1
         self.fitno[new["obj"]] = self.fitno.get(new["obj"], 0) + 1
